@@ -25,6 +25,13 @@ def run(tier):
             c.sc, c.profile, c.mode, c.seed = sc, prof, m, s
             cases.append(c)
 
+    for k in range(16 if tier == "quick" else 400):
+        sc = gen.gen_pill_paused_restart(seed * 1000 + k)
+        for m in ("loop", "dispatch"):
+            c = cc.Case()
+            c.sc, c.profile, c.mode, c.seed = sc, "pill_paused_restart", m, seed * 1000 + k
+            cases.append(c)
+
     def oracle(case):
         return model_pubsub.check_c08(case, stats)
 
